@@ -808,6 +808,23 @@ def result_fields(prog, f, ex=None):
         for k in ctor.keywords:
             if k.arg:
                 fields[k.arg] = (ex.expand(k.value), k.value)
+        # Cls(**fields) with `fields` a local dictionary: its display and the constant-key item stores after it are the keyword arguments
+        for k in ctor.keywords:
+            if k.arg is None and isinstance(k.value, ast.Name):
+                dname = k.value.id
+                defs_ = [a_ for a_ in find_assignments(f, dname) if isinstance(a_, ast.Assign)]
+                if len(defs_) == 1 and isinstance(defs_[0].value, ast.Dict) and all(kk is not None and isinstance(const_value(kk), str) for kk in defs_[0].value.keys):
+                    for kk, vv in zip(defs_[0].value.keys, defs_[0].value.values):
+                        fields[const_value(kk)] = (ex.expand(vv), vv)
+                    for n in all_nodes(f):
+                        if isinstance(n, ast.Assign) and len(n.targets) == 1 and isinstance(n.targets[0], ast.Subscript) and isinstance(n.targets[0].value, ast.Name) \
+                                and n.targets[0].value.id == dname and isinstance(const_value(n.targets[0].slice), str):
+                            fld = const_value(n.targets[0].slice)
+                            val = (ex.expand(n.value), n.value)
+                            if fld in fields and isinstance(fields[fld], tuple):
+                                fields[fld] = (mk('__phi__', fields[fld][0], val[0]), n.value)
+                            else:
+                                fields[fld] = val
         init = prog.classes[cname].find_method('__init__') if cname in prog.classes else None
         if init is not None and ctor.args and not any(isinstance(a_, ast.Starred) for a_ in ctor.args):
             for pname, a_ in zip(init.positional_params[1:], ctor.args):
